@@ -151,7 +151,7 @@ Proof.
   - destruct (sent (cx w)) as [k|]; [|apply sq_refl]. destruct (echo (cx w)) as [e|]; [|apply sq_refl].
     destruct (Nat.eqb (p_hdr p) (tx_hdr (cmds k)) && Nat.eqb (p_src p) (p_src e)); [apply sq_refl|].
     destruct (rx_hdr (cmds k)) as [h|]; [|apply sq_refl].
-    destruct (Nat.eqb (p_hdr p) h); [apply set_state_sq|apply sq_refl].
+    destruct (null_ok (cmds k) p || Nat.eqb (p_hdr p) h); [apply set_state_sq|apply sq_refl].
 Qed.
 
 Lemma caller_timer_sq w c : Rsat (sq w) (caller_timer w c).
@@ -297,7 +297,7 @@ End Env.
 
 (* a computed run: c0 is in flight when c1 (low priority) and then c2 (default priority) arrive; c2 starts before c1 *)
 Definition cmd_p (c : cid) : cmdinfo :=
-  {| prio := (match c with 1%nat => 2 | _ => 0 end); max_retries := 0; timeout := 20000000; wfr := false; tx_hdr := S c; rx_hdr := None |}.
+  {| prio := (match c with 1%nat => 2 | _ => 0 end); max_retries := 0; timeout := 20000000; wfr := false; tx_hdr := S c; rx_hdr := None; rx_null := None |}.
 Definition echo_later (n : nat) : wplan := {| w_lat := 0; w_fail := false; w_echo := Some 100000; w_rply := None |}.
 Definition write_order (tr : list obs) : list cid := flat_map (fun o => match o with Write _ c => [c] | _ => [] end) tr.
 Lemma priority_then_arrival :
